@@ -15,7 +15,17 @@ names = [a for a in sys.argv[1:] if not a.startswith("--")]
 jobs = int(sys.argv[sys.argv.index("--jobs") + 1]) if "--jobs" in sys.argv else 3
 if "--jobs" in sys.argv:
     names = [n for n in names if n != sys.argv[sys.argv.index("--jobs") + 1]]
-dirs = [d for d in sorted((HERE / "benign").iterdir()) if not names or any(n in d.name for n in names)]
+# (the three newest batches were evaluated last against nearly final checks: they come last, so that a run cut short by
+#  the clock has re-evaluated the oldest results first; results are written after every refactoring)
+NEW = ("feat", "near", "perf")
+dirs = [d for d in sorted((HERE / "benign").iterdir(), key=lambda d: (d.name.startswith(NEW), d.name)) if not names or any(n in d.name for n in names)]
+DONE = []
+if "--resume" in sys.argv:
+    # continue a run that was cut short: results already in benign_results.partial.json are kept, their refactorings skipped
+    part = HERE / "benign_results.partial.json"
+    if part.exists():
+        DONE = [r for r in json.loads(part.read_text()) if r.get("alarms") == []]
+        dirs = [d for d in dirs if d.name not in {r["refactoring"] for r in DONE}]
 
 
 def one(d):
@@ -27,13 +37,17 @@ def one(d):
     res = {"refactoring": d.name, "patch_applies": r.get("patch_applies"), "baseline_tests_not_passing": r.get("baseline_tests_not_passing"),
            "alarms": r.get("alarms"), "details": {k: v for k, v in r.get("checks", {}).items() if v["exit"] != 0}, "error": r.get("error")}
     print(d.name, "SILENT" if r.get("alarms") == [] else f"ALARM {r.get('alarms')} {r.get('error', '')}", flush=True)
+    DONE.append(res)
+    if not names:
+        (HERE / "benign_results.partial.json").write_text(json.dumps(sorted(DONE, key=lambda x: x["refactoring"]), indent=1))
     return res
 
 
 from concurrent.futures import ThreadPoolExecutor  # noqa: E402
 
 with ThreadPoolExecutor(max_workers=jobs) as ex:
-    results = list(ex.map(one, dirs))
+    list(ex.map(one, dirs))
+results = sorted(DONE, key=lambda x: x["refactoring"])
 if not names:
     (HERE / "benign_results.json").write_text(json.dumps(results, indent=1))
 bad = [r["refactoring"] for r in results if r.get("alarms") != []]
